@@ -1,0 +1,44 @@
+//go:build verif
+
+// Copyright 2023 StreamNative, Inc.
+//
+// Licensed under the Apache License, Version 2.0 (the "License");
+// you may not use this file except in compliance with the License.
+// You may obtain a copy of the License at
+//
+//     http://www.apache.org/licenses/LICENSE-2.0
+//
+// Unless required by applicable law or agreed to in writing, software
+// distributed under the License is distributed on an "AS IS" BASIS,
+// WITHOUT WARRANTIES OR CONDITIONS OF ANY KIND, either express or implied.
+// See the License for the specific language governing permissions and
+// limitations under the License.
+
+package wal
+
+import (
+	"time"
+
+	"github.com/pkg/errors"
+
+	time2 "github.com/oxia-db/oxia/common/time"
+)
+
+// VerifNewWal opens a wal with an injected clock and trimmer interval (verification harness only).
+func VerifNewWal(namespace string, shard int64, options *FactoryOptions, provider CommitOffsetProvider,
+	clock time2.Clock, trimmerCheckInterval time.Duration) (Wal, error) {
+	return newWal(namespace, shard, options, provider, clock, trimmerCheckInterval)
+}
+
+// VerifDoTrim runs one trimming round synchronously (verification harness only).
+func VerifDoTrim(w Wal) error {
+	impl, ok := w.(*wal)
+	if !ok {
+		return errors.New("not a *wal")
+	}
+	tr, ok := impl.trimmer.(*trimmer)
+	if !ok {
+		return errors.New("not a *trimmer")
+	}
+	return tr.doTrim()
+}
